@@ -331,7 +331,7 @@ type vfC03Node struct {
 	anon   bool
 }
 
-func vfC03NewNode(policy MessageSignaturePolicy, anon bool) *vfC03Node {
+func vfC03NewNode(policy MessageSignaturePolicy, anon bool, extra ...Option) *vfC03Node {
 	w := newVfWorld()
 	opts := []Option{WithMessageSignaturePolicy(policy), WithMessageIdFn(func(m *pb.Message) string {
 		b, _ := m.Marshal()
@@ -341,6 +341,7 @@ func vfC03NewNode(policy MessageSignaturePolicy, anon bool) *vfC03Node {
 	if anon {
 		opts = append(opts, WithNoAuthor())
 	}
+	opts = append(opts, extra...)
 	n, err := vfNewNode(w, "N", "flood", opts...)
 	if err != nil {
 		panic(err)
@@ -462,6 +463,21 @@ func vfC03RunGroup(r *vfRun, policy MessageSignaturePolicy, anon bool, base stri
 		}
 		r.unmark()
 		vfTeardown(node.w, node.n)
+		// the same probe against a node that publishes under a custom author (possible without a key when the
+		// policy does not sign): "the local node" is still the host's own ID
+		if !anon && policy&msgSigning == 0 {
+			node2 := vfC03NewNode(policy, false, WithMessageAuthor(keys[0].id))
+			self2 := node2.n.id()
+			m := &pb.Message{Data: []byte("y"), Topic: vfStrp("t"), From: []byte(self2), Seqno: []byte{0, 0, 0, 0, 0, 0, 0, 10}}
+			if policy == LaxNoSign {
+				signMessage(self2, vfIdentity("N").priv, m)
+			}
+			if d, f := node2.feed(m); d || f {
+				r.violation("c03:self-origin-accepted", fmt.Sprintf("policy=%d, custom message author: a message naming the local node as author arrived from another peer and was delivered=%v forwarded=%v", policy, d, f), vfC03Case{Policy: int(policy), Anonymous: anon, Base: "self"})
+			}
+			r.count("self_origin_probes_custom_author", 1)
+			vfTeardown(node2.w, node2.n)
+		}
 	})
 	if p != "" {
 		r.violation("panic:"+vfPanicFingerprint(p), "panic: "+vfFirstLine(p), vfC03Case{Policy: int(policy), Anonymous: anon, Base: base})
